@@ -2,7 +2,7 @@
 from common import *
 import senderlib, fdtxml
 
-PLAN = [("S7", 1500, None), ("S7b", 150, None)]
+PLAN = [("S7", 1500, None), ("S7b", 250, None)]
 
 
 def expand(behs):
